@@ -191,6 +191,9 @@ class _Quantifier(_UnaryOperator):
             result = 0
             for i, neuron in enumerate(operand.neurons):
                 result += neuron.aggregate_bounds([0], bounds[None, i])
+            operand.neuron.bounds_table = torch.vstack(
+                [n.get_data() for n in operand.neurons]
+            )
 
             return result
 
@@ -265,6 +268,9 @@ class _Quantifier(_UnaryOperator):
             bounds = bounds[0].permute([1, 0])
             for i, operand_neuron in enumerate(operand.neurons):
                 result += operand_neuron.aggregate_bounds([0], bounds[None, i])
+            operand.neuron.bounds_table = torch.vstack(
+                [n.get_data() for n in operand.neurons]
+            )
 
             return result
 
